@@ -11,7 +11,7 @@ open Manticore RExpr
 open Manticore.Gen
 open Manticore.Consts (byteAt)
 
-/-- `createDesKey` on seven bytes: which input bytes feed which key byte, with which mask and shifts -/
+-- `createDesKey` on seven bytes: which input bytes feed which key byte, with which mask and shifts
 theorem consts_match_model_createDesKey (b0 b1 b2 b3 b4 b5 b6 : UInt8) :
     let b := [b0, b1, b2, b3, b4, b5, b6]
     createDesKey b =
@@ -24,7 +24,7 @@ theorem consts_match_model_createDesKey (b0 b1 b2 b3 b4 b5 b6 : UInt8) :
           ((byteAt b ConstsC02.dk_r6_a &&& UInt8.ofNat ConstsC02.dk_r6_mask) <<< UInt8.ofNat ConstsC02.dk_r6_shl) ||| (byteAt b ConstsC02.dk_r6_b >>> UInt8.ofNat ConstsC02.dk_r6_shr),
           byteAt b ConstsC02.dk_r7_src &&& UInt8.ofNat ConstsC02.dk_r7_mask].map setParity) := by exact rfl
 
-/-- the eight stores go to `key[0]`…`key[7]` of an 8-byte key; any other input length than 7 is an error -/
+-- the eight stores go to `key[0]`…`key[7]` of an 8-byte key; any other input length than 7 is an error
 theorem consts_match_model_createDesKey_layout :
     [ConstsC02.dk_r0_dst, ConstsC02.dk_r1_dst, ConstsC02.dk_r2_dst, ConstsC02.dk_r3_dst, ConstsC02.dk_r4_dst, ConstsC02.dk_r5_dst,
      ConstsC02.dk_r6_dst, ConstsC02.dk_r7_dst] = List.range ConstsC02.dk_outLen ∧ ConstsC02.dk_parity_bytes = ConstsC02.dk_outLen := by decide
@@ -49,21 +49,21 @@ theorem consts_match_model_createDesKey_shape :
          "(| (<< (& (index bytes 4) 31) 2) (>> (index bytes 5) 6))", "(| (<< (& (index bytes 5) 63) 1) (>> (index bytes 6) 7))",
          "(!= (& (index key i) (<< 1 j)) 0)"] := rfl
 
-/-- the parity loop of `createDesKey`: eight bit positions tested with `1 << j` -/
+-- the parity loop of `createDesKey`: eight bit positions tested with `1 << j`
 theorem consts_match_model_bitCount8 (y : UInt8) :
     bitCount8 y =
       ((List.range ConstsC02.dk_parity_bits).map UInt8.ofNat).foldl
         (fun (n : Nat) (j : UInt8) => if y &&& (UInt8.ofNat ConstsC02.dk_parity_test_one <<< j) ≠ UInt8.ofNat ConstsC02.dk_parity_test_zero then n + 1 else n) 0 := by
   exact rfl
 
-/-- `key[i] = key[i] << 1; if bitCount%2 == 0 { key[i] |= 1 }` -/
+-- `key[i] = key[i] << 1; if bitCount%2 == 0 { key[i] |= 1 }`
 theorem consts_match_model_setParity (x : UInt8) :
     setParity x =
     (
       let y := x <<< UInt8.ofNat ConstsC02.dk_parity_shift_by
       if bitCount8 y % ConstsC02.dk_parity_even_mod = ConstsC02.dk_parity_even_rem then y ||| UInt8.ofNat ConstsC02.dk_parity_set_bit else y) := by exact rfl
 
-/-- `desEncrypt`: the guard lengths and the three key slices -/
+-- `desEncrypt`: the guard lengths and the three key slices
 theorem consts_match_model_desEncrypt (hash chal : Bytes) :
     desEncrypt hash chal =
     (
@@ -80,12 +80,12 @@ theorem consts_match_model_desEncrypt_shape :
         = ["(|| (!= (len hash) 16) (!= (len challenge) 8))", "(append (slice hash 14 16) (make []byte 5))",
            "(append (append result1 result2) result3)"] := ⟨rfl, rfl⟩
 
-/-- the blob header `01 01 00 00 00 00 00 00` of both NTLMv2 implementations -/
+-- the blob header `01 01 00 00 00 00 00 00` of both NTLMv2 implementations
 theorem consts_match_model_blobHeader :
     blobHeader = ConstsC02.v2_header
       ∧ blobHeader = [UInt8.ofNat ConstsC02.cb_resp_v, UInt8.ofNat ConstsC02.cb_hiResp_v] ++ ConstsC02.cb_reserved := by decide
 
-/-- `createNTLMv2Blob`: the epoch offset in seconds, ticks per second, the two reserved fields -/
+-- `createNTLMv2Blob`: the epoch offset in seconds, ticks per second, the two reserved fields
 theorem consts_match_model_createBlob (unixSecs : Nat) (cc ti : Bytes) :
     createBlob unixSecs cc ti =
     (
@@ -96,7 +96,7 @@ theorem consts_match_model_createBlob_layout :
       ∧ ConstsC02.cb_put_shape = "(binary.LittleEndian.PutUint64 buf (uint64 windowsTime))"
       ∧ ConstsC02.cb_order = ["buf", "clientChallenge", "targetInfo"] := ⟨rfl, by decide, by decide, rfl, rfl⟩
 
-/-- `NTLMv2.Hash`: the FILETIME epoch, the AV-pair guard and id, the reserved fields and MsvAvEOL -/
+-- `NTLMv2.Hash`: the FILETIME epoch, the AV-pair guard and id, the reserved fields and MsvAvEOL
 theorem consts_match_model_v2Blob (ticks : Nat) (cc domain16 : Bytes) :
     v2Blob ticks cc domain16 =
     (
@@ -116,7 +116,7 @@ theorem consts_match_model_v2Blob_layout :
       ∧ ConstsC02.v2_order = ["timestamp", "ntlm.ClientChallenge[:]", "avHeader", "domainUTF16"] :=
   ⟨rfl, rfl, rfl, by decide, by decide, by decide, rfl, rfl, rfl⟩
 
-/-- `NTLMv1.Hash`: the hash length, the padding to 21 bytes, the three 7-byte keys -/
+-- `NTLMv1.Hash`: the hash length, the padding to 21 bytes, the three 7-byte keys
 theorem consts_match_model_v1Hash (nthash chal : Bytes) :
     v1Hash nthash chal =
     (
@@ -127,7 +127,7 @@ theorem consts_match_model_v1Hash (nthash chal : Bytes) :
         let raw := nthash ++ zeros (ConstsC02.v1_padTo_total - nthash.length)
         .ok (des3 (raw.take ConstsC02.v1_key1_hi) ((raw.drop ConstsC02.v1_key2_lo).take (ConstsC02.v1_key2_hi - ConstsC02.v1_key2_lo)) ((raw.drop ConstsC02.v1_key3_lo).take (ConstsC02.v1_key3_hi - ConstsC02.v1_key3_lo)) chal)) := by exact rfl
 
-/-- `NTResponse`: the slices `[:7]`, `[7:14]`, `[14:16]` and the five zero bytes -/
+-- `NTResponse`: the slices `[:7]`, `[7:14]`, `[14:16]` and the five zero bytes
 theorem consts_match_model_response16 (h chal : Bytes) :
     response16 h chal =
     (
@@ -137,33 +137,33 @@ theorem consts_match_model_response16 (h chal : Bytes) :
       let k3 ← slice h ConstsC02.nt_key3_lo ConstsC02.nt_key3_hi
       pure (des3 k1 k2 (k3 ++ zeros ConstsC02.nt_pad_n) chal)) := by exact rfl
 
-/-- `NTResponse`: the length guard -/
+-- `NTResponse`: the length guard
 theorem consts_match_model_ntResponse (nthash chal : Bytes) :
     ntResponse nthash chal =
     (
       if nthash.length ≠ ConstsC02.nt_hashLen then .err else response16 nthash chal) := by exact rfl
 
-/-- `LMResponse` slices like `NTResponse`; `Hash` starts its first key at 0 and pads with zero bytes -/
+-- `LMResponse` slices like `NTResponse`; `Hash` starts its first key at 0 and pads with zero bytes
 theorem consts_match_model_responses_alike :
     [ConstsC02.lmr_key1_hi, ConstsC02.lmr_key2_lo, ConstsC02.lmr_key2_hi, ConstsC02.lmr_key3_lo, ConstsC02.lmr_key3_hi, ConstsC02.lmr_pad_n]
       = [ConstsC02.nt_key1_hi, ConstsC02.nt_key2_lo, ConstsC02.nt_key2_hi, ConstsC02.nt_key3_lo, ConstsC02.nt_key3_hi, ConstsC02.nt_pad_n]
       ∧ ConstsC02.v1_key1_lo = 0 ∧ ConstsC02.v1_padTo_fill = 0 := by decide
 
-/-- `ParityAdjust`: the bits of a byte from bit 7 down, masked with 1 -/
+-- `ParityAdjust`: the bits of a byte from bit 7 down, masked with 1
 theorem consts_match_model_bitsOfByte (b : UInt8) :
     bitsOfByte b
       = ((List.range (ConstsC02.pa_topBit + 1)).reverse.map (fun i => (b >>> UInt8.ofNat i) &&& UInt8.ofNat ConstsC02.pa_bits_one)) := by
   exact rfl
 
-/-- `ParityAdjust`: `if bit == 1 { b |= 1 << (7 - offset) }` -/
+-- `ParityAdjust`: `if bit == 1 { b |= 1 << (7 - offset) }`
 theorem consts_match_model_packBits (bit : UInt8) (rest : List UInt8) (off : Nat) (acc : UInt8) :
     packBits (bit :: rest) off acc
       = packBits rest (off + 1)
           (if bit = UInt8.ofNat ConstsC02.pa_bitIs then acc ||| (UInt8.ofNat ConstsC02.pa_set_one <<< UInt8.ofNat (ConstsC02.pa_set_top - off)) else acc) := by
   exact rfl
 
-/-- `ParityAdjust` works on groups of seven bits (the model's pattern of seven heads); `ParityBit` starts from 1, tests the low
-    bit and shifts by one -/
+-- `ParityAdjust` works on groups of seven bits (the model's pattern of seven heads); `ParityBit` starts from 1, tests the low
+-- bit and shifts by one
 theorem consts_match_model_parity_groups (n : Nat) :
     [ConstsC02.pa_truncate_group, ConstsC02.pa_step, ConstsC02.pa_group_len] = [7, 7, 7]
       ∧ parityBit n = parityLoop (n + 1) n ConstsC02.pb_init
